@@ -23,9 +23,9 @@ PROPS = {
                              "op:add-fp", "op:move-ctor", "op:move-assign", "op:graph-clear", "op:subgraphs-clear"],
         "assumptions": _A,
         "runs": {
-            "quick": [{"config": "plain", "shards": 16, "args": {"n": 1200}},
-                      {"config": "tsan", "shards": 16, "args": {"n": 240}},
-                      {"config": "asan", "shards": 16, "args": {"n": 240}}],
+            "quick": [{"config": "plain", "shards": 16, "args": {"n": 960}},
+                      {"config": "tsan", "shards": 16, "args": {"n": 192}},
+                      {"config": "asan", "shards": 16, "args": {"n": 192}}],
             "thorough": [{"config": "plain", "shards": 16, "seeds": 3, "args": {"n": 40000}},
                          {"config": "tsan", "shards": 16, "args": {"n": 8000}},
                          {"config": "asan", "shards": 16, "args": {"n": 12000}}],
@@ -42,9 +42,9 @@ PROPS = {
                              "op:partial", "partial-strict", "set-added-nodes", "full-after-partial", "merged-sets", "op:fp-noop", "pool0", "poolN"],
         "assumptions": _A,
         "runs": {
-            "quick": [{"config": "plain", "shards": 16, "args": {"n": 1200}},
-                      {"config": "tsan", "shards": 16, "args": {"n": 240}},
-                      {"config": "asan", "shards": 16, "args": {"n": 240}}],
+            "quick": [{"config": "plain", "shards": 16, "args": {"n": 960}},
+                      {"config": "tsan", "shards": 16, "args": {"n": 192}},
+                      {"config": "asan", "shards": 16, "args": {"n": 192}}],
             "thorough": [{"config": "plain", "shards": 16, "seeds": 3, "args": {"n": 40000}},
                          {"config": "tsan", "shards": 16, "args": {"n": 6000}},
                          {"config": "asan", "shards": 16, "args": {"n": 10000}}],
